@@ -584,6 +584,223 @@ class Inverse(Contract):
         return judge(nat)
 
 
+
+class AverageShape:
+    """ghost, shared by to_average (which ensures it) and to_marginal (which requires it): the average-rate scale AV of a
+    marginal-rate scale S with n >= 1 brackets, 0 <= t_0 < ... < t_{n-1} < +inf. `off` = 1 when t_0 > 0 (then AV starts with
+    an extra knot (0, 0)), else 0. A(k) = tax of S at its k-th threshold = sum_{j<k} r_j (t_{j+1} - t_j).
+      knots:  AV.T(off + q) = t_q (q < n),  AV.T(off + n) = +inf,  AV.T(0) = 0
+      rates:  AV.R(off + q) * t_q = A(q) (1 <= q < n)  -- average rate x base = tax at the knots --,
+              AV.R(q) = 0 for q <= off,  AV.R(off + n) = r_{n-1} (the marginal rate at infinity)"""
+
+    @staticmethod
+    def ghost(ctx, w):
+        w.A = z3.Function(ctx.fresh_name("TAX_AT_T"), z3.IntSort(), z3.RealSort())
+        ctx.assume(w.A(0) == 0)
+        q = z3.Int(ctx.fresh_name("q_fin"))
+        ctx.assume(z3.ForAll([q], z3.Implies(z3.And(q >= 0, q < w.n), w.T(q) < smt.PLUS_INF), patterns=[w.T(q)]))
+        ctx.assume(smt.PLUS_INF > 0)
+
+    @staticmethod
+    def unfold(ctx, w, k):
+        ctx.assume(z3.Implies(k >= 0, w.A(k + 1) == w.A(k) + w.R(k) * (w.T(k + 1) - w.T(k))))
+
+    @staticmethod
+    def clauses(w, off, AV, nr, q):
+        """the shape, with a free index q"""
+        n = w.n
+        res = [("one-knot-per-threshold-plus-infinity" + ("-and-zero" if off else ""), z3.And(AV.n == n + off + 1, nr == AV.n)),
+               ("knots-are-the-thresholds", z3.Implies(z3.And(q >= 0, q < n), AV.T(q + off) == w.T(q))),
+               ("the-last-knot-is-infinity", AV.T(n + off) == smt.PLUS_INF),
+               ("average-rate-times-threshold-is-the-tax-at-the-threshold", z3.Implies(z3.And(q >= 1, q < n), AV.R(q + off) * w.T(q) == w.A(q))),
+               ("the-average-rate-is-zero-up-to-the-first-threshold", z3.And(AV.R(0) == 0, AV.R(off) == 0)),
+               ("the-rate-at-infinity-is-the-last-marginal-rate", AV.R(n + off) == w.R(n - 1))]
+        if off:
+            res.append(("the-scale-starts-at-zero", AV.T(0) == 0))
+        return res
+
+
+class ToAverage(Contract):
+    name = f"{MR}.to_average"
+    loop_heads = {0: 'for (threshold, rate) in itertools.islice(zip(self.thresholds, self.rates), 1, None)'}
+    prop = ("C09",)
+    top_level = True
+    cases = ("first-threshold-zero", "first-threshold-positive")
+    descr = ("to_average of a scale with finite thresholds 0 <= t_0 < t_1 < ...: a new linear-average scale whose knots are 0, the "
+             "thresholds and +inf, whose rate at each threshold times the threshold is the tax at that threshold (ghost partial sums), zero "
+             "up to the first threshold, and the last marginal rate at infinity; the operand is unchanged")
+
+    def setup(self, I, ctx, case):
+        w = ScaleWorld(I, ctx, MR, min_brackets=1)
+        ctx.ghost["sw"] = w
+        ctx.ghost["off"] = 0 if case == "first-threshold-zero" else 1
+        ctx.assume(w.T(0) == 0 if case == "first-threshold-zero" else w.T(0) > 0)
+        AverageShape.ghost(ctx, w)
+        return {"self": w.scale, "__w": w}
+
+    @staticmethod
+    def local_contracts():
+        return {AddBracketSite.name: AddBracketSite()}
+
+    def _inv(self, ctx, I, vars):
+        w, off = ctx.ghost["sw"], ctx.ghost["off"]
+        m = B._z(vars["__k0"])
+        av = vars["average_tax_scale"]
+        cur, nr = state_of(I, ctx, av)
+        q = z3.Int(ctx.fresh_name("q_inv"))
+        res = [("one-knot-per-threshold-done", z3.And(cur.n == m + off + 1, nr == cur.n)),
+               ("knots-are-the-thresholds-done", z3.ForAll([q], z3.Implies(z3.And(q >= 0, q <= m), cur.T(q + off) == w.T(q)))),
+               ("average-rate-times-threshold-is-the-tax-there", z3.ForAll([q], z3.Implies(z3.And(q >= 1, q <= m), cur.R(q + off) * w.T(q) == w.A(q)))),
+               ("zero-up-to-the-first-threshold", z3.And(cur.R(0) == 0, cur.R(off) == 0, cur.T(0) == 0)),
+               ("knots-strictly-increasing", well_formed(ctx, cur))]
+        if all(v in vars for v in ("i", "previous_threshold", "previous_rate", "rate")):
+            res.append(("running-tax-threshold-and-rates", z3.And(B.zreal(vars["i"]) == w.A(m), B.zreal(vars["previous_threshold"]) == w.T(m),
+                                                                  B.zreal(vars["previous_rate"]) == w.R(m), B.zreal(vars["rate"]) == w.R(m))))
+        res.append(("a-new-scale-is-being-filled", av is not w.scale and av.fields["thresholds"] is not w.thresholds and av.fields["rates"] is not w.values))
+        return res
+
+    def _havoc(self, ctx, I, vars):
+        w, off = ctx.ghost["sw"], ctx.ghost["off"]
+        m = B._z(vars["__k0"])
+        AverageShape.unfold(ctx, w, m)
+        replace_lists(ctx, vars["average_tax_scale"], m + off + 1, "av_h")
+        for v in ("i", "previous_threshold", "previous_rate", "threshold", "rate"):
+            vars[v] = Sym(ctx.fresh_real("hv_" + v))
+
+    @property
+    def loops(self):
+        ls = LoopSpec(self._inv, self._havoc)
+        ls.heap_frame = ("average_tax_scale.thresholds", "average_tax_scale.rates")
+        return {0: ls}
+
+    def post(self, I, ctx, a, out, old):
+        w, off = a["__w"], ctx.ghost["off"]
+        if out[0] != "return" or not isinstance(out[1], Obj):
+            return [("returns-a-scale", False)]
+        r = out[1]
+        AV, nr = state_of(I, ctx, r)
+        q = ctx.fresh_int("q")
+        return [("a-new-linear-average-scale-with-its-own-lists", is_new_scale(I, r, w, cls=LA))] + AverageShape.clauses(w, off, AV, nr, q) + \
+            [("knots-strictly-increasing", well_formed(ctx, AV))] + unchanged(I, ctx, w)
+
+    def probes(self, case):
+        S = ([([0.0], [0.3]), ([0.0, 10.0, 20.0], [0.1, 0.2, 0.4]), ([0.0, 5.0], [0.0, 0.5]), ([0.0, 1.0, 2.0, 3.0], [0.5, 0.25, 0.0, 0.75])]
+             if case == "first-threshold-zero" else
+             [([10.0], [0.1]), ([100.0, 200.0], [0.1, 0.2]), ([5.0, 15.0, 25.0], [0.0, 0.5, 0.25]), ([2.0, 4.0, 6.0], [0.5, 0.0, 0.0])])
+        return [{"callee": self.name, "script": NATIVE, "op": "average_round_trip", "thresholds": t, "rates": r} for t, r in S]
+
+    def judge_native(self, I, case, call, nat):
+        return judge(nat)
+
+
+class ToMarginal(Contract):
+    name = f"{LA}.to_marginal"
+    loop_heads = {0: 'for (threshold, rate) in zip(self.thresholds[1:], self.rates[1:])'}
+    prop = ("C09",)
+    top_level = True
+    cases = ("first-threshold-zero", "first-threshold-positive")
+    descr = ("to_marginal of the average-rate scale that to_average produces for a marginal-rate scale S (the shape to_average "
+             "ensures is what this contract requires): a new marginal-rate scale with the thresholds and rates of S, preceded by a "
+             "bracket (0, rate 0) when S starts above 0 - so every summand of calc, hence the tax on every base, is that of S; the "
+             "operand is unchanged")
+
+    def setup(self, I, ctx, case):
+        w = ScaleWorld(I, ctx, MR, min_brackets=1)          # ghost: the marginal scale S the operand was made from
+        off = 0 if case == "first-threshold-zero" else 1
+        ctx.ghost["sw"], ctx.ghost["off"] = w, off
+        ctx.assume(w.T(0) == 0 if off == 0 else w.T(0) > 0)
+        AverageShape.ghost(ctx, w)
+        TA, RA = fresh_fn(ctx, "T_av"), fresh_fn(ctx, "R_av")
+        na = w.n + off + 1
+        AV = State(TA, RA, na)
+        q = z3.Int(ctx.fresh_name("q_shape"))
+        for name, f in AverageShape.clauses(w, off, AV, na, q):
+            ctx.assume(z3.ForAll([q], f) if _mentions(f, q) else f)
+        ctx.ghost["AV"] = AV
+        th = SymList(SeqVal(na, lambda k: Sym(TA(B._z(k))), "av_thresholds"))
+        rt = SymList(SeqVal(na, lambda k: Sym(RA(B._z(k))), "av_rates"))
+        av = Obj(I.resolve_qualified(LA), {"name": "average", "option": None, "unit": None, "thresholds": th, "rates": rt}, label="average-scale")
+        ctx.ghost["av_lists"] = (th, rt)
+        return {"self": av, "__w": w, "__av": av}
+
+    @staticmethod
+    def local_contracts():
+        return {AddBracketSite.name: AddBracketSite()}
+
+    @staticmethod
+    def _marginal(w, off, cur, q):
+        """bracket q of the scale being built is bracket q - off of S (the extra first bracket has rate 0)"""
+        if off:
+            return z3.And(cur.T(q) == z3.If(q == 0, 0, w.T(q - 1)), cur.R(q) == z3.If(q == 0, 0, w.R(q - 1)))
+        return z3.And(cur.T(q) == w.T(q), cur.R(q) == w.R(q))
+
+    def _inv(self, ctx, I, vars):
+        w, off, AV = ctx.ghost["sw"], ctx.ghost["off"], ctx.ghost["AV"]
+        m = B._z(vars["__k0"])
+        mt = vars["marginal_tax_scale"]
+        cur, nr = state_of(I, ctx, mt)
+        q = z3.Int(ctx.fresh_name("q_inv"))
+        nfin = w.n + off - 1                     # iterations over finite knots (the last one is +inf and adds nothing)
+        f = z3.If(m <= nfin, m, nfin)
+        taxat = lambda j: w.A(j - off) if off == 0 else z3.If(j == 0, 0, w.A(j - 1))
+        res = [("one-bracket-per-finite-knot-done", z3.And(cur.n == f, nr == f)),
+               ("brackets-done-are-those-of-the-original", z3.ForAll([q], z3.Implies(z3.And(q >= 0, q < f), self._marginal(w, off, cur, q)))),
+               ("thresholds-strictly-increasing", well_formed(ctx, cur))]
+        if all(v in vars for v in ("previous_i", "previous_threshold")):
+            res.append(("running-tax-and-threshold", z3.And(B.zreal(vars["previous_i"]) == taxat(f), B.zreal(vars["previous_threshold"]) == AV.T(f))))
+        if "rate" in vars:
+            res.append(("rate-of-the-last-knot-seen", z3.Implies(m >= 1, B.zreal(vars["rate"]) == AV.R(m))))
+        res.append(("a-new-scale-is-being-filled", mt is not vars["self"] and mt.fields["thresholds"] is not ctx.ghost["av_lists"][0]
+                    and mt.fields["rates"] is not ctx.ghost["av_lists"][1]))
+        return res
+
+    def _havoc(self, ctx, I, vars):
+        w, off = ctx.ghost["sw"], ctx.ghost["off"]
+        m = B._z(vars["__k0"])
+        AverageShape.unfold(ctx, w, m - off)
+        AverageShape.unfold(ctx, w, m - off - 1)
+        nfin = w.n + off - 1
+        replace_lists(ctx, vars["marginal_tax_scale"], smt.simp(z3.If(m <= nfin, m, nfin)), "mt_h")
+        for v in ("previous_i", "previous_threshold", "threshold", "rate", "i"):
+            vars[v] = Sym(ctx.fresh_real("hv_" + v))
+
+    @property
+    def loops(self):
+        ls = LoopSpec(self._inv, self._havoc)
+        ls.heap_frame = ("marginal_tax_scale.thresholds", "marginal_tax_scale.rates")
+        return {0: ls}
+
+    def post(self, I, ctx, a, out, old):
+        w, off, AV = a["__w"], ctx.ghost["off"], ctx.ghost["AV"]
+        if out[0] != "return" or not isinstance(out[1], Obj):
+            return [("returns-a-scale", False)]
+        r = out[1]
+        M, nr = state_of(I, ctx, r)
+        q = ctx.fresh_int("q")
+        b = ctx.fresh_real("base")
+        th, rt = ctx.ghost["av_lists"]
+        partM = lambda k: part_of(M.T, M.n, b, k)
+        partS = lambda k: part_of(w.T, w.n, b, k)
+        res = [("a-new-marginal-rate-scale-with-its-own-lists",
+                isinstance(r, Obj) and r is not a["__av"] and r.cls is I.resolve_qualified(MR) and r.fields.get("thresholds") is not th and r.fields.get("rates") is not rt),
+               ("one-bracket-per-original-bracket" + ("-plus-the-zero-bracket" if off else ""), z3.And(M.n == w.n + off, nr == M.n)),
+               ("thresholds-and-rates-are-the-original's", z3.Implies(z3.And(q >= 0, q < w.n), z3.And(M.T(q + off) == w.T(q), M.R(q + off) == w.R(q)))),
+               ("every-summand-of-calc-is-the-original's",
+                z3.Implies(z3.And(q >= 0, q < w.n), M.R(q + off) * partM(q + off) == w.R(q) * partS(q)))]
+        if off:
+            res.append(("the-extra-first-bracket-starts-at-zero-and-taxes-nothing", z3.And(M.T(0) == 0, M.R(0) == 0, M.R(0) * partM(z3.IntVal(0)) == 0)))
+        q2 = ctx.fresh_int("fq")
+        res += [("operand-keeps-its-thresholds", z3.And(a["__av"].fields["thresholds"] is th, same_list(I, ctx, th, AV.n, AV.T, q2))),
+                ("operand-keeps-its-rates", z3.And(a["__av"].fields["rates"] is rt, same_list(I, ctx, rt, AV.n, AV.R, q2)))]
+        return res
+
+    def probes(self, case):
+        return ToAverage.probes(self, case)
+
+    def judge_native(self, I, case, call, nat):
+        return judge(nat)
+
+
 def next_k(k, p, t, x):
     """the bracket containing x after a threshold t was inserted at position p, when it was bracket k before"""
     return z3.If(k >= p, k + 1, z3.If(z3.And(k == p - 1, x >= t), p, k))
@@ -793,4 +1010,4 @@ def lemmas(prop, timeout_ms):
     return recs
 
 
-CONTRACTS = [MultiplyRates(), MultiplyThresholds(), Copy(), ScaleTaxScales(), CombineBracket(), AddTaxScale(), Inverse()]
+CONTRACTS = [MultiplyRates(), MultiplyThresholds(), Copy(), ScaleTaxScales(), CombineBracket(), AddTaxScale(), Inverse(), ToAverage(), ToMarginal()]
